@@ -765,7 +765,7 @@ func finalValueBlindingFactor(
 	ctx, _ := secp256k1.ContextCreate(secp256k1.ContextBoth)
 	defer secp256k1.ContextDestroy(ctx)
 
-	values := append(args.InValues, args.OutValues...)
+	values := append(append([]uint64{}, args.InValues...), args.OutValues...)
 
 	generatorBlind := make([][]byte, 0)
 	generatorBlind = append(generatorBlind, args.InGenerators...)
@@ -816,7 +816,7 @@ func rangeProof(args RangeProofArgs) ([]byte, error) {
 		return nil, err
 	}
 
-	message := append(args.Asset, args.AssetBlindingFactor...)
+	message := append(append([]byte{}, args.Asset...), args.AssetBlindingFactor...)
 
 	commit, err := secp256k1.CommitmentParse(ctx, args.ValueCommit)
 	if err != nil {
